@@ -14,12 +14,15 @@ import (
 	"net/http"
 	"net/http/httptest"
 	"net/url"
+	"os"
 	"path"
 	"sort"
 	"strings"
 	"sync"
 	"sync/atomic"
 
+	"github.com/postalsys/muti-metroo/internal/agent"
+	"github.com/postalsys/muti-metroo/internal/config"
 	"github.com/postalsys/muti-metroo/internal/filetransfer"
 	"github.com/postalsys/muti-metroo/internal/health"
 	"github.com/postalsys/muti-metroo/internal/identity"
@@ -189,7 +192,38 @@ func newServer(f flags, tokenHash string) (*server, error) {
 	return &server{h: s.Handler(), mux: m, rec: rec}, nil
 }
 
+// cfgSpec is the http section of a configuration file: every toggle is
+// "" (not written), "true" or "false".
+type cfgSpec struct {
+	Minimal   string `json:"minimal"`
+	Remote    string `json:"remote_api"`
+	Dashboard string `json:"dashboard"`
+	Pprof     string `json:"pprof"`
+}
+
+func (cs cfgSpec) yaml(dataDir, tokenHash string) string {
+	var sb strings.Builder
+	fmt.Fprintf(&sb, "agent:\n  data_dir: %q\n  log_level: error\nhttp:\n  enabled: true\n  address: \"127.0.0.1:0\"\n", dataDir)
+	for _, kv := range [][2]string{{"minimal", cs.Minimal}, {"remote_api", cs.Remote}, {"dashboard", cs.Dashboard}, {"pprof", cs.Pprof}} {
+		if kv[1] != "" {
+			fmt.Fprintf(&sb, "  %s: %s\n", kv[0], kv[1])
+		}
+	}
+	if tokenHash != "" {
+		fmt.Fprintf(&sb, "  token_hash: %q\n", tokenHash)
+	}
+	return sb.String()
+}
+
+// documented semantics (configuration comments): minimal mode overrides all
+// endpoint flags to false; otherwise a group is on unless set to false
+func (cs cfgSpec) flags() flags {
+	on := func(t string) bool { return cs.Minimal != "true" && t != "false" }
+	return flags{Remote: on(cs.Remote), Dashboard: on(cs.Dashboard), Pprof: on(cs.Pprof)}
+}
+
 type reqSpec struct {
+	Cfg *cfgSpec `json:"config,omitempty"` // server built by agent.New from configuration text instead of a direct health.ServerConfig
 	Method string   `json:"method"`
 	Target string   `json:"target"`            // request target as written on the request line
 	Auth   []string `json:"auth,omitempty"`    // Authorization header values
@@ -294,6 +328,49 @@ func main() {
 		body = &hcq.Enc{}
 	}
 
+	// servers built the way the product builds them: configuration text ->
+	// config.Parse -> agent.New -> the agent's HTTP handler
+	dataDir, err := os.MkdirTemp("", "verif-c24-")
+	if err != nil {
+		panic(err)
+	}
+	defer os.RemoveAll(dataDir)
+	type cfgKey struct {
+		cs    cfgSpec
+		token bool
+	}
+	cfgServers := map[cfgKey]*server{}
+	getCfgServer := func(cs cfgSpec, token bool) *server {
+		k := cfgKey{cs, token}
+		if s, ok := cfgServers[k]; ok {
+			return s
+		}
+		th := ""
+		if token {
+			th = string(hash)
+		}
+		text := cs.yaml(dataDir, th)
+		cfg, err := config.Parse([]byte(text))
+		if err != nil {
+			c.Fail("config-rejected", fmt.Sprintf("config.Parse rejected the http section %+v: %v", cs, err), reqSpec{Cfg: &cs, Token: token})
+			cfgServers[k] = nil
+			return nil
+		}
+		a, err := agent.New(cfg)
+		if err != nil {
+			panic(fmt.Sprintf("agent.New: %v", err))
+		}
+		h := a.VerifHTTPHandler()
+		if h == nil {
+			c.Fail("no-http-handler", fmt.Sprintf("http.enabled is true but the agent built no HTTP server for %+v", cs), reqSpec{Cfg: &cs, Token: token})
+			cfgServers[k] = nil
+			return nil
+		}
+		c.Count("server-built-from-configuration-text")
+		cfgServers[k] = &server{h: h, rec: &recorder{}}
+		return cfgServers[k]
+	}
+
 	run := func(rs reqSpec) {
 		req, err := parse(rs)
 		if err != nil {
@@ -304,9 +381,21 @@ func main() {
 			c.Count("asterisk-form-skipped")
 			return
 		}
-		srv := getServer(rs.Flags, rs.Token)
+		var srv *server
+		if rs.Cfg != nil {
+			rs.Flags = rs.Cfg.flags()
+			if srv = getCfgServer(*rs.Cfg, rs.Token); srv == nil {
+				return
+			}
+		} else {
+			srv = getServer(rs.Flags, rs.Token)
+		}
 		// routing observation on the twin mux (does not run the handler)
-		routedHandler, routedPattern := srv.mux.Handler(req)
+		var routedHandler http.Handler
+		routedPattern := ""
+		if srv.mux != nil {
+			routedHandler, routedPattern = srv.mux.Handler(req)
+		}
 		routedIsRedirect := strings.Contains(fmt.Sprintf("%T", routedHandler), "redirectHandler")
 		// own reckoning of the presented token (monitor side)
 		hdr := ""
@@ -354,7 +443,7 @@ func main() {
 		if dec, err := url.PathUnescape(req.URL.EscapedPath()); err != nil || dec != req.URL.Path {
 			c.Fail("escapedpath-does-not-decode-to-path", fmt.Sprintf("EscapedPath %q Path %q", req.URL.EscapedPath(), req.URL.Path), rs)
 		}
-		if class == 3 && !skipExec && pattern != routedPattern {
+		if class == 3 && !skipExec && srv.mux != nil && pattern != routedPattern {
 			c.Fail("wrapper-routes-differently", fmt.Sprintf("handler dispatched to %q, bare mux routes to %q", pattern, routedPattern), rs)
 		}
 
@@ -410,9 +499,23 @@ func main() {
 		}
 
 		// ---- cases.v ----
-		body.Bool(rs.Flags.Remote)
-		body.Bool(rs.Flags.Dashboard)
-		body.Bool(rs.Flags.Pprof)
+		if rs.Cfg != nil {
+			body.Int(1)
+			body.Bool(rs.Cfg.Minimal == "true")
+			for _, t := range []string{rs.Cfg.Remote, rs.Cfg.Dashboard, rs.Cfg.Pprof} {
+				if t == "" {
+					body.Int(0)
+				} else {
+					body.Int(1)
+					body.Bool(t == "true")
+				}
+			}
+		} else {
+			body.Int(0)
+			body.Bool(rs.Flags.Remote)
+			body.Bool(rs.Flags.Dashboard)
+			body.Bool(rs.Flags.Pprof)
+		}
 		body.Bool(rs.Token)
 		body.Ref(rightToken)
 		body.Bool(req.Method == "CONNECT")
@@ -618,6 +721,32 @@ func main() {
 			for _, t := range []string{"/agents", "/routes/advertise", "/api/topology", "/sleep"} {
 				for _, m := range []string{"GET", "POST", "OPTIONS"} {
 					run(ambient(reqSpec{Method: m, Target: t, Flags: flags{true, true, true}, Token: true}, i))
+				}
+			}
+		}
+		// 1c. from configuration text: minimal x every toggle, unset / true / false, with and without a token;
+		// safe read-only probes of every group, unauthenticated and with the right token
+		tri := []string{"", "true", "false"}
+		probes := []string{"/health", "/agents", "/routes/advertise", "/wake", "/api/nodes", "/api/other", "/debug/pprof/cmdline", "/debug/pprof/"}
+		nCfg := 0
+		for _, mn := range tri {
+			for _, rm := range tri {
+				for _, db := range tri {
+					for _, pp := range tri {
+						cs := cfgSpec{Minimal: mn, Remote: rm, Dashboard: db, Pprof: pp}
+						nCfg++
+						full := c.Thorough() || mn == "true" || (nCfg+int(c.Seed))%3 == 0
+						for pi, t := range probes {
+							if !full && pi%2 == 1 {
+								continue
+							}
+							run(reqSpec{Cfg: &cs, Method: "GET", Target: t, Auth: []string{"Bearer " + rightToken}, Token: true})
+							if full {
+								run(reqSpec{Cfg: &cs, Method: "GET", Target: t, Token: true})
+								run(reqSpec{Cfg: &cs, Method: "GET", Target: t, Token: false})
+							}
+						}
+					}
 				}
 			}
 		}
